@@ -9,6 +9,7 @@ _T = "TornadoModel.C30."
 THEOREMS = [_T + n for n in [
     "only_input_error", "urlencoded_roundtrip", "urlencoded_roundtrip_entry", "limits_enforced_parts", "limits_enforced_parts_reject",
     "limits_enforced_header", "multipart_trailing_backslash_refuted",
+    "multipart_roundtrip_partial", "multipart_roundtrip_refuted", "multipart_roundtrip_full_refuted", "limits_exact",
 ]]
 TRUSTED = [
     "bytes.find/rfind/split, str.split/strip/partition/startswith, UTF-8 decoding, urllib.parse.parse_qs(l)/unquote (latin-1), "
@@ -30,11 +31,13 @@ RULE = ("forms of 0-6 fields/files (binary contents, empty values, repeated name
         "types; limits at count-1/count/count+1; non-trivial = a form with >=1 part parsed successfully, or a mutated body")
 EXHAUSTIVE = {"quick": False, "thorough": False}
 CLAUSES = {
-    "multipart with a boundary occurring nowhere in the content is recovered exactly": "tie only: multipart_roundtrip_goal is stated (def, not proved); "
-        "multipart_roundtrip_full is false, multipart_trailing_backslash_refuted (known finding)",
+    "multipart with a boundary occurring nowhere in the content is recovered exactly": "multipart_roundtrip_partial (side conditions: no upload "
+        "whose field name ends in a backslash = the known finding, multipart_trailing_backslash_refuted / multipart_roundtrip_full_refuted; boundary without LF — "
+        "multipart_roundtrip_refuted shows the clause is false as written for a boundary containing CR LF, which no Content-Type header can carry)",
     "urlencoded forms are recovered exactly": "urlencoded_roundtrip, urlencoded_roundtrip_entry",
     "any other body succeeds or raises HTTPInputError, never another exception": "only_input_error",
-    "part-count and part-header-size limits are enforced": "limits_enforced_parts, limits_enforced_parts_reject, limits_enforced_header",
+    "part-count and part-header-size limits are enforced": "limits_enforced_parts, limits_enforced_parts_reject, limits_enforced_header, "
+        "limits_exact (encoded forms: = accepted, > refused with HTTPInputError, both limits)",
 }
 PARALLEL = True
 CASE_TIMEOUT = 120   # pure functions: only a runaway mutant gets here; generous because the pool may be starved on a loaded machine
@@ -322,7 +325,7 @@ def _roundtrip_domain(case):
     if body.count(b) != len(case["parts"]) + 1:
         return "boundary occurs in the content"
     if not re.fullmatch(r"[0-9A-Za-z'()+_,\-./:=? ]{0,69}[0-9A-Za-z'()+_,\-./:=?]", case["boundary"]):
-        return "boundary outside RFC 2046 bchars"
+        return "boundary outside RFC 2046 bchars"    # also gives `LF not in boundary`, the side condition of multipart_roundtrip_partial
     if case["ct"].count("boundary=") != 1 or ";" in case["boundary"]:
         return "content-type header ambiguous"
     for n, fn, ct, v in case["parts"]:
